@@ -682,3 +682,88 @@ Lemma purge_after_failed_undo_Q w : postQ purge_after_failed_undo w (fun _ _ l =
 Proof.
   unfold purge_after_failed_undo. eapply postQ_bind; [apply src_remove_all_Q|qcont]. repeat qstep. reflexivity.
 Qed.
+Definition reportable (q : list byte) : Prop := 8 <= zlen q /\ nthb q 1 <> c_ERROR.
+
+(* outcome of process_eod: either success without any report, or failure with exactly one report, for one
+   PDU of the stored answer whose update failed, carrying the code of that failure *)
+Definition eod_post (v : Z) (v4 v6 ks : list (list byte)) (r : Z) (w' : world) (l : list (list byte)) : Prop :=
+  (r = 0 /\ l = []) \/
+  (r = -1 /\ st (sk w') = c_RTR_ERROR_FATAL /\
+   exists bad c k, In bad (v4 ++ v6 ++ ks) /\ update_class bad c /\ l = [update_report v bad c k]).
+
+Ltac eq_facts :=
+  repeat match goal with
+  | H : apply_pfx _ _ _ _ = (_, _, Some _) |- _ =>
+      let H2 := fresh in pose proof H as H2; apply apply_pfx_facts in H2; destruct H2 as [? _]; apply apply_pfx_fail in H; destruct H as [? ?]
+  | H : apply_keys _ _ _ _ = (_, _, Some _) |- _ =>
+      let H2 := fresh in pose proof H as H2; apply apply_keys_facts in H2; destruct H2 as [? _]; apply apply_keys_fail in H; destruct H as [? ?]
+  | H : apply_pfx _ _ _ _ = (_, _, None) |- _ => apply apply_pfx_facts in H; destruct H as [? _]
+  | H : apply_keys _ _ _ _ = (_, _, None) |- _ => apply apply_keys_facts in H; destruct H as [? _]
+  | H : undo_pfx _ _ _ = (_, _, _) |- _ => apply undo_pfx_nosend in H
+  | H : undo_keys _ _ _ = (_, _, _) |- _ => apply undo_keys_nosend in H
+  | H : (if ?b then _ else _) = (_, _, _) |- _ => destruct b
+  | H : (_, @nil titem, _) = (_, _, _) |- _ => inversion H; subst; clear H
+  end.
+
+Lemma reportable_in l bad : Forall reportable l -> In bad l -> 8 <= zlen bad /\ nthb bad 1 <> c_ERROR.
+Proof. intros H Hi. rewrite Forall_forall in H. exact (H _ Hi). Qed.
+
+Ltac qstep2 :=
+  match goal with
+  | |- postQ (bind (report_update_failure ?bad _ _) _) _ _ =>
+      eapply postQ_bind;
+      [ apply report_update_failure_Q;
+        match goal with Hi : In bad ?l, Hf : Forall reportable ?l |- _ => apply (reportable_in l bad Hf Hi) end
+      | let HQ := fresh "HQ" in intros ? ? ? HQ (-> & _); cbn [app] ]
+  | |- postQ (bind purge_after_failed_undo _) _ _ => eapply postQ_bind; [apply purge_after_failed_undo_Q | qcont]
+  | |- postQ (bind (change_state _) _) _ _ =>
+      eapply postQ_bind; [apply change_state_Q, FATAL_ne | let HQ := fresh "HQ" in intros ? ? ? HQ (-> & ? & _); cbn [app]]
+  | _ => qstep
+  end.
+
+Theorem process_eod_updates p v4 v6 ks w :
+  get16 p 2 = session_id (sk w) -> Forall reportable v4 -> Forall reportable v6 -> Forall reportable ks ->
+  postQ (process_eod p v4 v6 ks) w (eod_post (version (sk w)) v4 v6 ks).
+Proof.
+  intros Hsess H4 H6 Hk. unfold process_eod. apply postQ_get_sk.
+  replace (negb (get16 p 2 =? session_id (sk w))) with false by (symmetry; apply negb_false_iff; now apply Z.eqb_eq).
+  repeat first [qstep2 | progress (subst; eq_facts)].
+  all: try (nosend_tac; fail).
+  all: try (left; split; reflexivity).
+  all: right; split; [reflexivity|]; split; [assumption|].
+  all: repeat match goal with H : Q _ _ _ |- _ => let V := fresh "V" in destruct H as (_ & V & _) end.
+  all: match goal with |- exists bad c k, _ /\ _ /\ [update_report _ ?b ?c ?k] = _ => exists b, c, k end.
+  all: split; [rewrite !in_app_iff; auto|split; [assumption|]].
+  all: do 2 f_equal; congruence.
+Qed.
+
+(* the PDUs the store loop keeps are reportable: accepted by receive_pdu, of a payload type *)
+Lemma pdu_ok_reportable p : pdu_ok p -> nthb p 1 <> c_ERROR -> reportable p.
+Proof. intros (_ & _ & Hl & _) Hn. now split. Qed.
+
+(* ---------- C04: a receive error ends the exchange without touching the tables ---------- *)
+Theorem store_loop_recv_error f v4 v6 ks w c w1 :
+  receive_pdu c_RTR_RECV_TIMEOUT w = Ok (inl c) w1 ->
+  exists w', store_loop (Datatypes.S f) v4 v6 ks w = Ok (-1) w' /\ T w w'.
+Proof.
+  intros H. cbn [store_loop]. unfold bind at 1. rewrite H.
+  pose proof (receive_pdu_T c_RTR_RECV_TIMEOUT w) as HT. unfold rel in HT. rewrite H in HT.
+  destruct ((c =? -2) || (c =? -4)).
+  - unfold bind. rewrite change_state_eq. unfold ret. eexists. split; [reflexivity|].
+    destruct (_ || _); [exact HT|]. destruct HT. split; assumption.
+  - unfold ret. eexists. split; [reflexivity|exact HT].
+Qed.
+
+Theorem rtr_sync_no_first fuel w w1 :
+  sync_first fuel w = Ok None w1 -> rtr_sync fuel w = Ok (-1) w1.
+Proof. intros H. unfold rtr_sync. unfold bind at 1. rewrite H. reflexivity. Qed.
+
+(* a failed rtr_sync never makes the state machine ESTABLISHED in that step *)
+Theorem fsm_step_sync_failed fuel w r w1 :
+  st (sk w) = c_RTR_SYNC -> rtr_sync fuel w = Ok r w1 -> r <> 0 -> fsm_step fuel w = Ok tt w1.
+Proof.
+  intros Hst H Hr. unfold fsm_step. unfold bind at 1. unfold get_sk. rewrite Hst.
+  change (c_RTR_SYNC =? c_RTR_CONNECTING) with false. change (c_RTR_SYNC =? c_RTR_RESET) with false.
+  change (c_RTR_SYNC =? c_RTR_SYNC) with true. cbv iota.
+  unfold bind at 1. rewrite H. replace (r =? 0) with false by (symmetry; now apply Z.eqb_neq). reflexivity.
+Qed.
